@@ -100,6 +100,9 @@ def size(node):
 
 
 class BEval(object):
+    str_identity = True
+    identity_used = False
+
     def __init__(self, env, classes, rec_fns):
         self.env = env
         self.base, self.nt, self.tt = classes
@@ -164,10 +167,14 @@ class BEval(object):
             return a == b
         if o == '!=':
             return a != b
-        if o == 'is':
-            return a is b or a == b
-        if o == 'is not':
-            return not (a is b or a == b)
+        if o in ('is', 'is not'):
+            if isinstance(a, str) and isinstance(b, str) and a == b:
+                # equal strings need not be identical objects
+                self.identity_used = True
+                same = self.str_identity
+            else:
+                same = a is b or a == b
+            return same if o == 'is' else not same
         if o == '<':
             return a < b
         if o == '>':
@@ -439,6 +446,19 @@ def _show(n):
 
 
 def _check_step(res, ev, I, order, rec_spec, want, in_size):
+    msg = _check_step1(res, ev, I, order, rec_spec, want, in_size)
+    if msg is None and ev.identity_used:
+        # the step compared variable names with `is`: equal names that are
+        # different objects (built at run time) must behave the same
+        ev.str_identity = False
+        msg = _check_step1(res, ev, I, order, rec_spec, want, in_size)
+        if msg:
+            msg = 'identity: variable names are compared with `is`; for ' \
+                  'an equal name that is another object: ' + msg
+    return msg
+
+
+def _check_step1(res, ev, I, order, rec_spec, want, in_size):
     hits = pick_path(res, ev, I)
     if hits and hits[0][0] == 'attr-error':
         return 'attribute-error: the step reads %s (AttributeError)' % \
